@@ -227,6 +227,9 @@ func checkJSONToDSL1(run *core.Run, m *openfgav1.AuthorizationModel, how string)
 		run.Violation("produced-dsl-does-not-parse", c, "the produced DSL parses", dsl+"\n"+perr.Error())
 		return
 	}
+	if !parsedFinite(run, c, back) {
+		return
+	}
 	want := normalModel(m)
 	got := normalModel(back) // brings absent/empty metadata of the parser's output to the same form
 	if modular {
@@ -255,6 +258,9 @@ func checkJSONToDSL1(run *core.Run, m *openfgav1.AuthorizationModel, how string)
 			backS, perr := transformer.TransformDSLToProto(dslSrc)
 			if perr != nil {
 				run.Violation("produced-dsl-does-not-parse", c, "the DSL produced with source information parses", dslSrc+"\n"+perr.Error())
+				return
+			}
+			if !parsedFinite(run, c, backS) {
 				return
 			}
 			if gotS := sortedTypes(normalModel(backS)); !proto.Equal(got, gotS) {
